@@ -6,25 +6,23 @@ open CaddyModel.C02
 #print axioms retained_never_unbound_every_prefix
 #print axioms retained_usage_count_positive
 #print axioms pool_counts_holders
-#print axioms served_by_old_or_new_partial
+#print axioms served_by_old_or_new
 #print axioms one_reload_alive_old_or_new
 #print axioms connect_current_address_answered
-#print axioms after_drain_only_new_partial
+#print axioms after_drain_only_new
 #print axioms dropped_address_has_no_listener
-#print axioms dropped_address_closed_partial
-#print axioms reload_meets_spec_partial
+#print axioms dropped_address_closed
+#print axioms reload_meets_spec
+#print axioms reload_state_meets_spec
 #print axioms unix_unlink_only_at_zero
 #print axioms held_unix_socket_has_file
-#print axioms close_never_unlinks
+#print axioms unix_socket_file_iff_held
+#print axioms connect_never_hangs
 #print axioms inflight_completed_by_acceptor
 #print axioms accepted_by_a_holder
-#print axioms no_rejected_reload_no_zombies
-#print axioms served_by_old_or_new_of_no_rejection
 #print axioms reload_is_a_run
 #print axioms reload_never_unbinds_retained
-#print axioms reload_meets_spec
 #print axioms reload_sequence_is_a_run
 #print axioms reorder_breaks_it
-#print axioms dropped_address_closed_full_fails
-#print axioms served_by_old_or_new_full_fails
-#print axioms after_drain_only_new_full_fails
+#print axioms dropped_address_closed_old_code_fails
+#print axioms served_by_old_or_new_old_code_fails
